@@ -4,5 +4,5 @@ P('C16', shards=16,
   text='Every generated string is escaped by both functions; an independent reader of POSIX quoting must see exactly one literal word with the input as value, '
        'and the real dash and bash must receive exactly one argument equal to the input (batched scripts, mismatches bisected to one input). '
        'All strings up to length 5 over the 15 special symbols are enumerated completely; random non-NUL byte strings up to 200 bytes are sampled. Results are compared again after later calls and from concurrent callers (race pass): a returned string must stay valid. Exploration, not proof.',
-  note='A quarter of the cases change SHELL, LANG, LC_ALL, HOME, IFS or TERM first: the word is a function of the string alone. Trusts the word-reader model (about 80 lines), dash 0.5 / bash 5 as installed with LC_ALL=C, and that printf %s\\0 reports arguments faithfully.',
+  note='Hostile pieces include characters usable as in-band markers (U+FFFF etc.). A quarter of the cases change SHELL, LANG, LC_ALL, HOME, IFS or TERM first: the word is a function of the string alone. Trusts the word-reader model (about 80 lines), dash 0.5 / bash 5 as installed with LC_ALL=C, and that printf %s\\0 reports arguments faithfully.',
   design='3/C16')
